@@ -236,6 +236,21 @@ def run(ctx, report):
                         good = True
                     else:
                         why = 'helper receives (%s, %s) but the result is %s %s %s' % (A, B, la, op, ra)
+                # the two operand arguments are the instruction's operands themselves: parameters that are never rebound,
+                # or a single-definition constant (inc/dec/neg)
+                params = [p.arg for p in fn.args.args]
+                for arg in (a, b):
+                    if not good:
+                        break
+                    if isinstance(arg, ast.Name):
+                        defs_ = local.get(arg.id, [])
+                        if arg.id in params and defs_:
+                            good = False
+                            why = 'operand argument %s is rebound before the call (%s): carry/overflow are then computed from a derived value, not from the instruction operand' % (
+                                arg.id, norm(defs_[0])[:60])
+                        elif arg.id not in params and not (len(defs_) == 1 and isinstance(defs_[0], ast.Call) and u(defs_[0].func) in ('ExprInt_from', 'ExprInt32', 'ExprInt16', 'ExprInt8')):
+                            good = False
+                            why = 'operand argument %s is neither an instruction operand nor a single constant' % arg.id
                 if good:
                     R2.ok(inst, sample='%s: %s with %s = %s' % (fname, norm(n), u(c), norm(cdef[0])[:70]))
                 else:
@@ -380,6 +395,8 @@ MUTANTS = [
     ('xor-nocf', 'miasmx/arch/ia32_sem.py', "    e.append(ExprAff(of, ExprInt32(0)))\n    e.append(ExprAff(cf, ExprInt32(0)))\n    return e\n\ndef update_flag_arith",
      "    e.append(ExprAff(of, ExprInt32(0)))\n    return e\n\ndef update_flag_arith", 'C04.D3'),
     ('add-znp-operand', 'miasmx/arch/ia32_sem.py', "def add(info, a, b):\n    e= []\n    c = ExprOp('+', a, b)\n    e+=update_flag_arith(c)", "def add(info, a, b):\n    e= []\n    c = ExprOp('+', a, b)\n    e+=update_flag_arith(a)", 'C04.D3'),
+    ('adc-rebinds-b', 'miasmx/arch/ia32_sem.py', "    c = ExprOp('+',\n               a,\n               ExprOp('+',\n                      b,\n                      ExprCompose([(ExprInt32(0), 1, a.get_size()),\n                                   (cf, 0, 1)])))\n    e+=update_flag_arith(c)\n    e+=update_flag_af(c)\n    e+=update_flag_add(a, b, c)",
+     "    b = ExprOp('+',\n               b,\n               ExprCompose([(ExprInt32(0), 1, a.get_size()),\n                            (cf, 0, 1)]))\n    c = ExprOp('+', a, b)\n    e+=update_flag_arith(c)\n    e+=update_flag_af(c)\n    e+=update_flag_add(a, b, c)", 'C04.D2'),
     ('add-of-formula', 'miasmx/arch/ia32_sem.py', "    return ExprAff(of, get_op_msb(((a ^ c) & (~(a ^ b)))))", "    return ExprAff(of, get_op_msb(((a ^ c) & (a ^ b))))", 'C04.D2'),
     ('shr-mask-size', 'miasmx/arch/ia32_sem.py', "def shr(info, a, b):\n    e= []\n    shifter = ExprOp('&',b, ExprInt_from(b, 0x1f))",
      "def shr(info, a, b):\n    e= []\n    shifter = ExprOp('&',b, ExprInt_from(b, a.get_size()-1))", 'C04.D4'),
